@@ -77,10 +77,16 @@ var kC10Arith = run.NewKind("c10.arith", func(c *run.Ctx, t c10Arith) *run.Fail 
 	if !ok {
 		return run.Failf("bad op")
 	}
-	tr := run.RunCode(c10Code(src), nil, []any{repInt(a, t.RA), repInt(b, t.RB)}, 10000, 0)
+	av, bv := repInt(a, t.RA), repInt(b, t.RB)
+	tr := run.RunCode(c10Code(src), nil, []any{av, bv}, 10000, 0)
 	c.Logf("gojq: %s", run.TraceDesc(tr))
 	if tr.End == run.EndPanic {
 		return run.Failf("panic: %s", tr.Panic)
+	}
+	// the operands still denote the same integers (an operator that computes into an operand makes every later use
+	// of that value, e.g. a literal in a loop, inexact)
+	if run.Canon(av) != a.String() || run.Canon(bv) != b.String() {
+		return run.Failf("%s with $a=%s(rep %d) $b=%s(rep %d): after the evaluation the operand values read $a=%s $b=%s", src, t.A, t.RA, t.B, t.RB, run.Canon(av), run.Canon(bv))
 	}
 	wantErr := false
 	var want string
@@ -582,6 +588,41 @@ func init() {
 							kC10Arith.Do(c, c10Arith{op, a.String(), b.String(), r.IntN(3), r.IntN(3)})
 						}
 					}
+				}
+			}
+			// representation boundaries: every ordered pair of the values next to 2^31, 2^32, sqrt(2^63), 2^53, 2^62, 2^63,
+			// 2^64 (both signs) x every operator x every combination of operand representations
+			var H []*big.Int
+			for _, x := range B {
+				for _, k := range []uint{31, 32, 53, 62, 63, 64} {
+					d := new(big.Int).Sub(new(big.Int).Abs(x), new(big.Int).Lsh(big.NewInt(1), k))
+					if d.CmpAbs(big.NewInt(2)) <= 0 {
+						H = append(H, x)
+						break
+					}
+				}
+				if ax := new(big.Int).Abs(x); ax.Cmp(big.NewInt(3)) <= 0 || new(big.Int).Sub(ax, big.NewInt(3037000499)).CmpAbs(big.NewInt(2)) <= 0 {
+					H = append(H, x)
+				}
+			}
+			c.Gauge("representation_boundary_values", int64(len(H)))
+			for _, a := range H {
+				for _, b := range H {
+					for _, op := range binops {
+						for reps := 0; reps < 9; reps++ {
+							if c.Quick() && op != "cmp" && op != "*" && (reps+len(a.String())+len(b.String()))%3 != 0 {
+								continue
+							}
+							kC10Arith.Do(c, c10Arith{op, a.String(), b.String(), reps / 3, reps % 3})
+						}
+					}
+				}
+			}
+			// a value against itself in every pair of representations
+			for _, a := range B {
+				for reps := 0; reps < 9; reps++ {
+					kC10Arith.Do(c, c10Arith{"cmp", a.String(), a.String(), reps / 3, reps % 3})
+					kC10Arith.Do(c, c10Arith{"-", a.String(), a.String(), reps / 3, reps % 3})
 				}
 			}
 			for _, a := range B {
